@@ -49,17 +49,23 @@ def check(m, run):
                        'shallow copy of the input geometry shares its knot vectors and control points; later setters write through to the input', site(fi, n))
     run.ob('PU1.no-shallow-copy', 'listed functions', True, 'scanned %d functions' % len(PURE_FUNCS))
     run.floor('PU1.input-not-mutated', 20, 'non-mutating operations')
-    for key, (axis, pdim) in SPLITS.items():
-        split_rules(m, run, m.func(key), axis, pdim)
+    # the split functions are decided on recorder shapes (SP3, SP3s: exact pieces - homogeneous for rational inputs -, input untouched,
+    # domain ends rejected); the rules that read the guards, the directions of the helper calls and the view the pieces are filled
+    # from corroborate
     from .. import skel_drivers as _sd
+    n_sp = len(run.obs)
     _sd.sp3(m, run)          # split_curve on recorder curves: the pieces are the halves of the fully refined net, exactly
     _sd.sp3s(m, run)         # split_surface_u / _v on recorder surfaces (non-square net, different degrees), plain and rational
+    sp_ok = len(run.obs) > n_sp and all(o.ok for o in run.obs[n_sp:])
+    with run.corroborating(sp_ok, 'SP3/SP3s', rules=('GD3.domain-end-rejected', 'RV1.pieces-get-homogeneous-points', 'AX3.split-direction', 'AX3.piece-complete', 'AXL.list-position')):
+        for key, (axis, pdim) in SPLITS.items():
+            split_rules(m, run, m.func(key), axis, pdim)
+        rv1(m, run)
     n0 = len(run.obs)
     _sd.dc2(m, run)
     dc_ok = all(o.ok for o in run.obs[n0:])
     with run.corroborating(dc_ok, 'DC2', rules=('DC1.interior-knots', 'DC1.split-functions-in-axis-order', 'DC1.direction-dispatch', 'DC1.repeated-split')):
         decompose_rules(m, run)
-    rv1(m, run)
     # splitting inserts the split parameter up to full multiplicity, usually at an existing knot (s >= 1): the A5.1 cell skeleton
     from .. import skel_drivers
     skel_drivers.c04(m, run)
